@@ -310,7 +310,9 @@ def run(prop, tier, seed, t0):
     tasks = []
     import random as _r
     rs = _r.Random(seed * 15485863 + 3)
-    drawn = [((rs.randrange(8, 60),), 1), ((rs.randrange(97, 240),), 1), ((rs.randrange(251, 399),), 1)]
+    drawn = [((rs.randrange(8, 60),), 1), ((rs.randrange(97, 240),), 1), ((rs.randrange(251, 399),), 1),
+             # beyond any plausible internal chunk size (512, 1024), not a multiple of it
+             ((rs.randrange(513, 700),), 1), ((rs.randrange(1025, 1100),), 1)]
     if tier == 'quick':
         groups = drawn + [((0, 1, 2, 3, 7), 3), ((64,), 1), ((94,), 1), ((95,), 1), ((96,), 1), ((249,), 1), ((250,), 1), ((400,), 1),
                   ((0, 1, 2, 3, 7, 16), 2), ((5, 33), 1)]
